@@ -59,7 +59,13 @@ static void vinit(struct cstl_vector *v)
 #endif
     if (HASX) cstl_vector_init_complex(v, ESZ, ctor, dtor, E_PRIV); else cstl_vector_init(v, ESZ);
 }
-static void drv_reset(void) { a_reset(); vinit(&V[0]); vinit(&V[1]); cur = 0; }
+static void drv_reset(void)
+{
+    a_reset(); vinit(&V[0]); cur = 0;
+    /* the swap partner has another element size and the opposite constructor/destructor configuration:
+     * a swap must carry the whole object over, configuration included */
+    if (HASX) cstl_vector_init(&V[1], ESZ + 3); else cstl_vector_init_complex(&V[1], ESZ + 3, ctor, dtor, E_PRIV);
+}
 static void drv_aborted(void) { a_end(); }
 
 static void fill_new(size_t from)
@@ -121,7 +127,8 @@ static void drv_ser(jb_t *b)
     long bytes = blk && blk->live ? small(blk->n) : -1;
     int bad = 0; size_t i;
     if (v->elem.base && bytes < 0) bad = 1;
-    if (v->elem.size != ESZ) bad = 1;
+    if (v->elem.size != ESZ || (v->elem.xtor.cons != NULL) != (HASX != 0) || (v->elem.xtor.dest != NULL) != (HASX != 0)) bad = 1;
+    if (o->elem.size != ESZ + 3 || (o->elem.xtor.cons != NULL) == (HASX != 0)) bad = 1;
     jb_printf(b, "{\"base\":%s,\"blk\":%ld,\"count\":%ld,\"cap\":%ld,\"tags\":[", v->elem.base ? "true" : "false",
               v->elem.base ? bytes : 0L, small(v->count), small(v->cap));
     if (v->elem.base && bytes >= 0 && v->count <= (size_t)bytes / ESZ)
